@@ -185,7 +185,9 @@ fn main() -> Result<()> {
                 Some((&FifoEntry::WrapAroundMarker(marker), timestamps)) => {
                     (Some(marker), timestamps)
                 }
-                Some((_, timestamps)) => (None, timestamps),
+                // The last chunk may not end with a marker; all its entries
+                // are timestamps.
+                Some(_) => (None, chunk),
                 _ => unreachable!(),
             };
             for &tsc in timestamps {
